@@ -105,6 +105,7 @@ struct Inst {
 	bool entered[HV_NS]; const void* addr[HV_NS];
 	std::vector<Req> lastFirstExpected; std::vector<uint32_t> lastFirstTags;
 	int8_t activity[HV_NS]; bool activityKnown = false;
+	std::vector<uint32_t> planIssuedTags; // payload tags of the tasks executed in this step, in order (filled by judgePlans)
 	bool planExists[HV_REGION_COUNT > 0 ? HV_REGION_COUNT : 1], planExists0[HV_REGION_COUNT > 0 ? HV_REGION_COUNT : 1]; bool markS[HV_NS], markF[HV_NS], markS0[HV_NS], markF0[HV_NS];   // C06 bookkeeping (marks outstanding now / at the start of the step)
 	bool degenerateReplay = false; bool overlongReplay = false;   // the current call replays more transitions than the transition sets hold (F31)
 	bool degeneratePlanDest = false;   // a plan holds (held) a task whose destination is an orthogonal region without composite ancestor (F29)
@@ -148,6 +149,9 @@ struct Session {
 	bool replica = false; int loadsDiffering = 0; int orderNontrivial = 0, payloadMixed = 0, pendingJudged = 0;
 	int cfgChanges = 0, cbChecks = 0, vetoedRounds = 0, multiRound = 0, batches = 0, kindResolved = 0, reentries = 0, loads = 0, replays = 0;
 
+	// C04 metamorphic twin: run 1 notes, per op, which script entries lead to / fire in rounds that are vetoed after the last approved round
+	// (suppressOut); the twin run (suppress) executes the same case without them; lifecycle callbacks and configurations of every step (stepLife) must agree
+	std::vector<uint8_t> suppress, suppressOut; std::vector<uint64_t> stepLife; uint64_t lifeAcc = 0; size_t curOp = 0; int twinSteps = 0;
 	Session(hv::Stats& s, const Case& c) : st(s), prop(hv::opts().prop), cs(c) {}
 
 	bool want(const char* p) const { return prop == p; }
@@ -255,6 +259,8 @@ struct Walker {
 		judgeReport(in, what, expectOn);
 		for (int i = 0; i < x.n; ++i) { const Ev& e = x.tr[i]; if (e.kind == E_RNG) ++S.rngDraws; if (e.kind >= E_LOG_METHOD && e.kind <= E_LOG_RANDOM) continue; const uint32_t w[6] = {e.kind, e.method, (uint32_t) e.state, (uint32_t) e.a, (uint32_t) e.b, e.tag}; S.digest = hv::fnv((const uint8_t*) w, sizeof w, S.digest); }
 		if (expectOn) { const Cfg c = readCfg(*in.fsm); S.digest = hv::fnv((const uint8_t*) c.active, sizeof c.active, S.digest); S.digest = hv::fnv((const uint8_t*) c.resumable, sizeof c.resumable, S.digest); }
+		if (S.want("C04")) { for (int i = 0; i < x.n; ++i) { const Ev& e = x.tr[i]; if (!(e.kind == E_CB && (e.method == (uint8_t) Method::ENTER || e.method == (uint8_t) Method::EXIT || e.method == (uint8_t) Method::REENTER))) continue; const uint32_t w[3] = {e.method, (uint32_t) e.state, (uint32_t) e.a}; S.lifeAcc = hv::fnv((const uint8_t*) w, sizeof w, S.lifeAcc); }
+			if (expectOn) { const Cfg c = readCfg(*in.fsm); S.lifeAcc = hv::fnv((const uint8_t*) c.active, sizeof c.active, S.lifeAcc); S.lifeAcc = hv::fnv((const uint8_t*) c.resumable, sizeof c.resumable, S.lifeAcc); } }
 	}
 
 	bool classifyKnownBreak(Inst& in, const hv::BreakLatch& b) {
@@ -381,7 +387,11 @@ struct Walker {
 		return false;
 	}
 
-	void installScript(Inst& in, const Op& o, int n = 4) { Ctx& x = in.ctx; x.nscript = 0; for (int i = 0; i < n; ++i) if (o.script[i].action != A_NONE) { x.script[x.nscript] = o.script[i]; x.script[x.nscript].used = false; ++x.nscript; } }
+	void installScript(Inst& in, const Op& o, int n = 4) { Ctx& x = in.ctx; x.nscript = 0; for (int i = 0; i < n; ++i) if (o.script[i].action != A_NONE) {
+		x.script[x.nscript] = o.script[i]; x.script[x.nscript].used = false; x.script[x.nscript].firedAt = -1; x.script[x.nscript].idx = (uint8_t) i;
+		if (S.curOp < S.suppress.size() && ((S.suppress[S.curOp] >> i) & 1)) x.script[x.nscript].action = A_NOP; // twin run: the entry still matches its callback, but does nothing
+		++x.nscript; } }
+	void planTwin(Inst& in, const std::vector<Round>& rs);
 
 	void run();
 	void step(const Op& o, size_t index);
@@ -403,6 +413,7 @@ void Walker::judgeProcessing(Inst& in, const char* what, const Cfg& before, cons
 	Ctx& x = in.ctx; char buf[600];
 	if (x.overflow) { in.model.cfg = readCfg(*in.fsm); in.queued.clear(); in.queuedTags.clear(); return; }
 	std::vector<Round> rs = segmentRounds(x);
+	if (S.want("C04") && S.suppress.empty() && !RNG_BUILTIN && !x.overflow) planTwin(in, rs);
 	const int limit = HV_SUBST_LIMIT;
 	// requests the script issued before the first round (update/react phases)
 	std::vector<Req> pre; std::vector<uint32_t> preTags;
@@ -410,7 +421,11 @@ void Walker::judgeProcessing(Inst& in, const char* what, const Cfg& before, cons
 	std::vector<Req> firstExpected = in.queued; std::vector<uint32_t> firstTags = in.queuedTags;
 	for (size_t i = 0; i < pre.size(); ++i) { if ((int) firstExpected.size() < HV_COMPO_COUNT) { firstExpected.push_back(pre[i]); firstTags.push_back(preTags[i]); } else st.cls("queue_overflow_rejected"); }
 	// requests issued by plan tasks (after the phases, on behalf of region heads) are seen through the logger
-	for (int i = 0; i < x.n && (rs.empty() || i < rs[0].firstEv); ++i) if (x.tr[i].kind == E_LOG_TRANSITION && !(i > 0 && x.tr[i - 1].kind == E_ACT_REQ) && x.tr[i].state >= 0 && (int) firstExpected.size() < HV_COMPO_COUNT) { firstExpected.push_back(Req{x.tr[i].a, x.tr[i].b}); firstTags.push_back(0xFFFFFFFEu /* payload of the task: not tracked here */); }
+	size_t nIssued = 0;
+	for (int i = 0; i < x.n && (rs.empty() || i < rs[0].firstEv); ++i) if (x.tr[i].kind == E_LOG_TRANSITION && !(i > 0 && x.tr[i - 1].kind == E_ACT_REQ)) {
+		const size_t idx = nIssued++; // same enumeration as judgePlans' `issued`
+		if (x.tr[i].state >= 0 && (int) firstExpected.size() < HV_COMPO_COUNT) { firstExpected.push_back(Req{x.tr[i].a, x.tr[i].b}); firstTags.push_back(idx < in.planIssuedTags.size() ? in.planIssuedTags[idx] : 0xFFFFFFFEu /* task not identified */); } }
+	in.planIssuedTags.clear();
 	in.lastFirstExpected = firstExpected; in.lastFirstTags = firstTags;
 	const bool planActivity = in.plansUsed;
 	if (rs.size() > 1) ++S.multiRound;
@@ -422,7 +437,7 @@ void Walker::judgeProcessing(Inst& in, const char* what, const Cfg& before, cons
 	if ((int) rs.size() > limit) { std::snprintf(buf, sizeof buf, "%zu guard rounds in one processing step, substitution limit is %d (%s, step %u)", rs.size(), limit, what, S.stepNo); S.violation("C04", buf); }
 
 	// ---- C04 (b) / C14: every round's pending list is what was issued, in order, with the payloads it was issued with
-	if (!planActivity) {
+	if (!planActivity || (in.loggerOn && !x.overflow)) { // with plans in play the requests they issue are only visible through the logger
 		for (size_t k = 0; k < rs.size(); ++k) {
 			std::vector<Req> expect; std::vector<uint32_t> etags;
 			if (k == 0) { expect = firstExpected; etags = firstTags; }
@@ -563,7 +578,8 @@ static void dumpTrace(const Ctx& x) {
 
 void Walker::step(const Op& o, size_t index) {
 	Inst& in = I(); Ctx& x = in.ctx; Instance& f = *in.fsm;
-	++S.stepNo;
+	++S.stepNo; S.curOp = index; S.lifeAcc = 1469598103934665603ull + index;
+	struct LifeNote { Session& S; size_t i; ~LifeNote() { if (S.stepLife.size() <= i) S.stepLife.resize(i + 1, 0); S.stepLife[i] = S.lifeAcc; } } lifeNote{S, index};
 	x.beginStep(S.stepNo);
 	setEnv(x, o.envSeed, o.rndSel, S.replica);
 	x.push(E_API, 0, -1, (int) index, o.kind);
@@ -689,6 +705,29 @@ void Walker::step(const Op& o, size_t index) {
 
 //------------------------------------------------------------------------------
 
+// C04 "a vetoed round changes nothing", as a metamorphic relation that needs no model: when every round after the last approved one was vetoed,
+// the step must end exactly as the same step in which those rounds never take place. The twin run drops the script entries that issued the
+// requests leading to the vetoed tail (guards of the last approved round) and the entries that fired inside the tail.
+void Walker::planTwin(Inst& in, const std::vector<Round>& rs) {
+	Ctx& x = in.ctx;
+	if (rs.size() < 2) return;
+	int L = -1; for (size_t k = 0; k < rs.size(); ++k) if (!rs[k].cancelled) L = (int) k;
+	if (L < 0 || L == (int) rs.size() - 1) return;
+	st.cls("veto_twin_candidates");
+	if (!rs.back().issued.empty()) return;                       // requests left behind by the last round: processed silently or by the next step
+	for (size_t k = (size_t) L; k < rs.size(); ++k) { for (auto& q : rs[k].issued) if (q.type == T_SCHEDULE) return; if ((int) k > L) for (auto& q : rs[k].pend) if (q.type == T_SCHEDULE) return; } // scheduling applies regardless
+	const int tailBegin = rs[L + 1].firstEv; int tailEnd = x.n;
+	for (int i = rs.back().firstEv; i < x.n; ++i) if (isLifecycle(x.tr[i])) { tailEnd = i; break; }
+	unsigned mask = 0;
+	for (int i = 0; i < x.nscript; ++i) { const ScriptEntry& e = x.script[i]; if (!e.used || e.firedAt < 0) continue;
+		const bool pure = e.action == A_REQ || e.action == A_CANCEL || e.action == A_BURST;
+		if (e.firedAt >= tailBegin && e.firedAt < tailEnd) { if (!pure) return; mask |= 1u << e.idx; }
+		else if (e.firedAt >= rs[L].firstEv && e.firedAt < tailBegin && (e.action == A_REQ || e.action == A_BURST)) mask |= 1u << e.idx; }
+	if (!mask) return;
+	if (S.suppressOut.size() <= S.curOp) S.suppressOut.resize(S.curOp + 1, 0);
+	S.suppressOut[S.curOp] = (uint8_t) mask; ++S.twinSteps; st.cls("veto_twin_steps_planned");
+}
+
 void Walker::judgeOrder(Inst& in, const OrderModel& om, const char* what) {
 	Ctx& x = in.ctx; if (x.overflow) return;
 	std::vector<OrderModel::Rec> got;
@@ -804,6 +843,7 @@ std::vector<Walker::PTask> Walker::readPlan(Inst& in, int r) {
 
 void Walker::judgePlans(Inst& in, const std::vector<std::vector<PTask>>& before, const bool wasActive[HV_NS], const char* what) {
 	Ctx& x = in.ctx; char buf[500];
+	in.planIssuedTags.clear();
 	if (x.overflow || !in.loggerOn) { // plan-issued requests are observed through the logger
 		int fr = x.n; for (int i = 0; i < x.n; ++i) if (x.tr[i].kind == E_ROUND) { fr = i; break; }
 		for (int i = 0; i < fr; ++i) if (x.tr[i].kind == E_ACT_PLAN && x.tr[i].method != 255 && x.tr[i].f > 0.5f) in.planExists[x.tr[i].a] = true;
@@ -837,10 +877,11 @@ void Walker::judgePlans(Inst& in, const std::vector<std::vector<PTask>>& before,
 		if (e.kind == E_ACT_PLAN && e.method == 255) work[e.a].clear();
 		while (ii < issued.size() && issued[ii].at == i) {
 			const Issued& q = issued[ii++];
-			if (q.head < 0 || q.head >= HV_NS || !isRegion(q.head)) { std::snprintf(buf, sizeof buf, "a transition was requested on behalf of state %d, which is no region head, without anybody requesting it (%s, step %u)", q.head, what, S.stepNo); S.violation("C06", buf); continue; }
+			if (q.head < 0 || q.head >= HV_NS || !isRegion(q.head)) { in.planIssuedTags.push_back(0xFFFFFFFEu); std::snprintf(buf, sizeof buf, "a transition was requested on behalf of state %d, which is no region head, without anybody requesting it (%s, step %u)", q.head, what, S.stepNo); S.violation("C06", buf); continue; }
 			const int r = node(q.head).region; auto& plan = work[r];
 			// the first task, in order, with an active origin that succeeded and this destination, before any task with an inactive origin
 			int found = -1; for (size_t k = 0; k < plan.size(); ++k) { if (!wasActive[plan[k].origin]) break; if (plan[k].dest == q.dest && succ[plan[k].origin]) { found = (int) k; break; } }
+			in.planIssuedTags.push_back(found >= 0 ? plan[found].tag : 0xFFFFFFFEu);
 			if (found < 0) { std::snprintf(buf, sizeof buf, "region %d requested %s->%d on behalf of its plan, but the plan holds no task to %d whose origin is active and succeeded (and that is not behind a task with an inactive origin) (%s, step %u)", q.head, TTN[q.type % 7], q.dest, q.dest, what, S.stepNo); S.violation("C06", buf); continue; }
 			if (plan[found].type != q.type) { if (!(q.type == T_CHANGE && S.known("F12"))) { std::snprintf(buf, sizeof buf, "task %d->%d of kind %s was executed as %s (%s, step %u)", plan[found].origin, plan[found].dest, TTN[plan[found].type % 7], TTN[q.type % 7], what, S.stepNo); S.violation("C06", buf); } }
 			if (plan[found].origin == plan[found].dest) succ[plan[found].origin] = false; // a cyclic task consumes the success it was waiting for
@@ -852,7 +893,8 @@ void Walker::judgePlans(Inst& in, const std::vector<std::vector<PTask>>& before,
 		bool lifecycleAfter = false; for (int i = firstRound; i < x.n; ++i) if (x.tr[i].kind == E_ACT_PLAN) lifecycleAfter = true; // plan edits from enter/exit/guards afterwards: not tracked here
 		if (lifecycleAfter) continue;
 		bool same = now.size() == work[r].size(); for (size_t k = 0; same && k < now.size(); ++k) same = now[k].origin == work[r][k].origin && now[k].dest == work[r][k].dest && now[k].type == work[r][k].type && now[k].tag == work[r][k].tag;
-		if (!same) { std::snprintf(buf, sizeof buf, "plan of region %d holds %zu tasks after the step, %zu were expected to remain (executed tasks are removed exactly once, others stay) (%s, step %u)", r, now.size(), work[r].size(), what, S.stepNo); S.violation("C06", buf); }
+		if (!same && now.size() == work[r].size()) { std::snprintf(buf, sizeof buf, "plan of region %d holds %zu tasks after the step as expected, but a task differs from what was appended (origin, destination, kind or payload) (%s, step %u)", r, now.size(), what, S.stepNo); S.violation("C06", buf); }
+		else if (!same) { std::snprintf(buf, sizeof buf, "plan of region %d holds %zu tasks after the step, %zu were expected to remain (executed tasks are removed exactly once, others stay) (%s, step %u)", r, now.size(), work[r].size(), what, S.stepNo); S.violation("C06", buf); }
 	}
 	// a failure reported in this step by a sub-state (directly, or passed on by the default planFailed of a nested plan-owning region) makes the
 	// innermost plan-owning region around it fail: its tasks must not be executed and it must not report success
@@ -1155,6 +1197,13 @@ static std::string hv_run(const hv::Bytes& b, hv::Stats& st) {
 		if (S2.digest != S.digest) { char b[200]; std::snprintf(b, sizeof b, "C10 the same case behaves differently in storage pre-filled with 0x%02x (continued on a copy from op %d) than in storage pre-filled with 0x%02x", (unsigned) S2.fillOverride, S2.copyAt, (unsigned) c.hdr[4]); S.failure = b; }
 		st.cls("placement_differential_runs"); if (S2.copyAt >= 0 && S2.copyAt < (int) c.ops.size()) st.cls("runs_continued_on_a_copy");
 	}
+	if (S.prop == "C04" && S.failure.empty() && S.twinSteps > 0) { // metamorphic: the same case in which the vetoed tail rounds never take place
+		hv::Stats scratch; Session S2(scratch, c); S2.suppress = S.suppressOut; S2.suppress.resize(c.ops.size(), 0); Walker w2(S2); w2.run();
+		st.cls("veto_twin_runs");
+		for (size_t i = 0; i < S.stepLife.size() && i < S2.stepLife.size(); ++i) if (S.stepLife[i] != S2.stepLife[i]) {
+			char b[400]; std::snprintf(b, sizeof b, "C04 step %zu (%s): the lifecycle callbacks or the resulting configuration differ from the same step in which the vetoed round(s) never take place (the guard requests that led to them are not issued)%s", i + 1, OPN[c.ops[i].kind], (i < S.suppressOut.size() && S.suppressOut[i]) ? "" : " - first difference in a later step");
+			S.failure = b; break; }
+	}
 	if (S.prop == "C16" && S.failure.empty()) { // differential: the same case with no logger ever attached behaves identically
 		hv::Stats scratch; Session S2(scratch, c); S2.forceNoLogger = true; Walker w2(S2); w2.run();
 		if (S2.digest != S.digest) S.failure = "C16 the same case behaves differently (callbacks / actions / configurations) when no logger is attached";
@@ -1223,8 +1272,11 @@ static rc::Gen<hv::Bytes> hv_gen() {
 	if (p == "C06") aw =         { 8,  2,  0,  8,  4,  0,  4,  1,  0,  2,  1,  2};
 	if (p == "C05") aw =         {10,  2,  0,  1,  1,  8,  0,  0,  0,  0,  0,  0};
 	if (p == "C11") aw =         { 8,  8,  3,  2,  2,  1,  3,  1,  6,  1,  1,  1};
+	if (p == "C04") aw =         { 6,  8,  6,  0,  0,  0,  0,  0,  1,  0,  0,  0};
+	const bool guardBias = p == "C04"; // three of five script entries address guards (method index 0/1), so that rounds with substitutions and vetoes are frequent
 	auto entry = gen::map(gen::tuple(hv::byte(), hv::byte(), hv::weighted(aw), hv::byte(), hv::byte(), hv::byte()),
-		[](const std::tuple<uint8_t, uint8_t, int, uint8_t, uint8_t, uint8_t>& t) { return std::array<uint8_t, 6>{{std::get<0>(t), std::get<1>(t), (uint8_t) std::get<2>(t), std::get<3>(t), std::get<4>(t), std::get<5>(t)}}; });
+		[guardBias](const std::tuple<uint8_t, uint8_t, int, uint8_t, uint8_t, uint8_t>& t) { uint8_t m = std::get<1>(t); if (guardBias && (m % 5) < 3) m = (uint8_t) ((m & 0xC0) | ((m >> 3) & 1));
+			return std::array<uint8_t, 6>{{std::get<0>(t), m, (uint8_t) std::get<2>(t), std::get<3>(t), std::get<4>(t), std::get<5>(t)}}; });
 	auto op = gen::map(gen::tuple(hv::weighted(w), gen::container<std::vector<uint8_t>>(7, hv::byte()), gen::container<std::vector<std::array<uint8_t, 6>>>(4, entry)),
 		[](const std::tuple<int, std::vector<uint8_t>, std::vector<std::array<uint8_t, 6>>>& t) {
 			std::array<uint8_t, REC> r{}; r[0] = (uint8_t) std::get<0>(t);
